@@ -14,7 +14,7 @@ CLAUSES = {
 }
 BOUNDS = {
     "quick": "6x6 ROMS grid, 3 levels, currents depending on level and frame (time interpolated, concrete values), 2 release rows at symbolic depths, one IBM death at a symbolic step, records every step or every 2nd step, sparse and dense layout, EF and RK2; shift by a symbolic number of steps in [-5, 5]; Nsteps 3",
-    "thorough": "Nsteps 4, 3 rows, RK4, scalar forcing compared too",
+    "thorough": "Nsteps 4, RK4, all layout/scheme/period combinations, reordered rows sharing a release time",
 }
 ASSUMES = ["equality over the reals (bit-for-bit equality holds where both runs build the same operation sequence; rounding is outside the claim)"]
 OUTSIDE = "diffusion on (random draws differ between runs by design)"
@@ -28,6 +28,9 @@ def scenarios(tier):
     combos = [("sparse", "EF", 1), ("sparse", "RK2", 2), ("dense", "EF", 1)] if q else [(l, a, pp) for l in ("sparse", "dense") for a in ("EF", "RK2", "RK4") for pp in (1, 2)]
     for layout, adv, per in combos:
         out.append(dict(name=f"others-{layout}-{adv}-p{per}", fn="others", params=dict(layout=layout, adv=adv, per=per, nsteps=3 if q else 4), cost=10))
+    if not q:
+        out.append(dict(name="reorder-sparse-EF", fn="reorder", params=dict(layout="sparse", adv="EF", nsteps=3), cost=10))
+        out.append(dict(name="reorder-dense-RK2", fn="reorder", params=dict(layout="dense", adv="RK2", nsteps=3), cost=10))
     out.append(dict(name="reproducible", fn="repro", params=dict(nsteps=3), cost=5))
     out.append(dict(name="time-shift", fn="shift", params=dict(nsteps=3), cost=5))
     return out
@@ -109,6 +112,27 @@ def others(W, p):
         conds += [W.eq(a, b) for a, b in zip(v1, v2)]
     W.prove(W.all(conds), "others-do-not-matter", dict(layout=layout, scheme=p["adv"], killstep=kstep, release_b=rb, records_with_others=len(tb), records_alone=len(ta)))
     return (rb, kstep)
+
+
+def reorder(W, p):
+    """two rows with the same release time in either file order: each particle's track is the same up to renumbering"""
+    tmp = W.scratch()
+    uv = _uvals(W)
+    _files(W, tmp, T0, uv)
+    za, zb = W.real("za", 0, 99), W.real("zb", 0, 99)
+    rowA = [W.dt(T0), W.frac(11, 4), 3, za]
+    rowB = [W.dt(T0), W.frac(13, 5), W.frac(5, 2), zb]
+    ab = _tracks(W, _run(W, tmp, tmp / "ab", [rowA, rowB], T0, p["nsteps"], uv, p["layout"], p["adv"]), p["layout"], 2)
+    ba = _tracks(W, _run(W, tmp, tmp / "ba", [rowB, rowA], T0, p["nsteps"], uv, p["layout"], p["adv"]), p["layout"], 2)
+    conds = []
+    for first, second in ((0, 1), (1, 0)):
+        t1, t2 = ab.get(first, []), ba.get(second, [])
+        conds.append(len(t1) == len(t2))
+        for (r1, *v1), (r2, *v2) in zip(t1, t2):
+            conds.append(r1 == r2)
+            conds += [W.eq(a, b) for a, b in zip(v1, v2)]
+    W.prove(W.all(conds), "others-do-not-matter", dict(kind="reordered rows", layout=p["layout"], scheme=p["adv"]))
+    return ("reorder",)
 
 
 def repro(W, p):
